@@ -624,6 +624,7 @@ func init() {
 		tqCampaign(c, "C06")
 		if c.Replay == "" {
 			c06Real(c, NewRng(c.Seed^0xC06A), "C06")
+			c06Concat(c, NewRng(c.Seed^0xC06B))
 		}
 	}
 	campaigns["C15"] = func(c *Ctx) {
